@@ -63,6 +63,8 @@ func C10(e *Env) {
 
 	calls := moduleCalls(e.P)
 	r.Analysed["module_call_instructions"] = len(calls)
+	c09FlagChain(e)
+	r.Rule("R09.4", "the -i flag is a string array that reaches the payload's inputPatterns unchanged (shared with C09): a slice flag splits a path on commas, so the command reads other files than the ones it was given and fails or succeeds for the wrong input", 1)
 
 	// ---- R10.1 / R10.2
 	var writes []callSite
